@@ -37,7 +37,11 @@ RULE = ("cases = interception plans (0-8 entries per family built by truncating 
         "cases (nat, nft, tproxy, tproxy+udp): the real set-up of a first plan acts on a stateful table/chain/rule "
         "state (tool exit codes and the -nL listing come from that state), no tear-down runs (the helper was "
         "killed), then the real set-up of a different plan with the same ports/families/owner runs on top and the "
-        "resulting rule state is judged against the SECOND plan. pf-history cases (FreeBSD/OpenBSD/Darwin): a first "
+        "resulting rule state is judged against the SECOND plan; for nat the killed and the new session may differ "
+        "in user/group (none->user, user->none, A->B, groups): the stateful iptables model refuses what the kernel "
+        "refuses (-D of an absent rule, -X of a referenced or non-empty chain, -N of an existing chain, -F/-A/-I "
+        "of a missing chain), a refusal of the new session to start is acceptable, and if it starts the whole "
+        "rule state (stale rules included) is judged for every owner. pf-history cases (FreeBSD/OpenBSD/Darwin): a first "
         "session runs and ends normally against a stateful pf (anchor calls of the main ruleset via the real "
         "DIOCCHANGERULE buffers, `pfctl -s all` listing, anchor contents), then a second session whose ports are a "
         "decimal prefix of / equal to / unrelated to the first's is set up and only the anchors the main ruleset "
@@ -1343,6 +1347,12 @@ def pf_history_case(ctx, method, first, plan, budget):
 
 
 STALE_METHODS = ['nat', 'nft', 'tproxy', 'tproxy-udp']
+STALE_OWNER_PAIRS = [
+    ((None, None), (None, None)), ((None, None), ('alice', None)), (('alice', None), (None, None)),
+    (('alice', None), ('bob', None)), (('alice', None), ('alice', None)), ((None, None), (None, 'staff')),
+    ((None, 'staff'), (None, 'wheel')), (('alice', None), (None, 'staff')), ((None, 'staff'), (None, None)),
+    (('alice', 'staff'), ('alice', 'staff')), (('alice', 'staff'), ('bob', 'staff')), ((None, None), ('bob', 'wheel')),
+]
 
 
 def run_sessions(method, plans):
@@ -1384,14 +1394,49 @@ def second_plan(rng, method, first):
     return p
 
 
+KNOWN_STALE_OWNER_KEY = 'C03:stale-session:nat:stale-owner-mark:traffic-of-the-killed-sessions-owner-diverted'
+
+
+def owners_differ(first, plan):
+    return (first.user, first.group) != (plan.user, plan.group)
+
+
+def _owner_ok(pl, k):
+    return k[4] == 1 and (pl.user is None or k[6] == pl.user) and (pl.group is None or k[7] == pl.group)
+
+
+def is_stale_owner_mark_class(method, first, plan, k, got, want):
+    """nat; the killed session AND the new one both had an owner restriction, a different one; the packet is
+    locally generated by the KILLED session's owner (not the new session's) and is diverted.  (The new session's
+    restore_firewall deletes the old mark-matching jump - same arguments - but looks for the mangle MARK rule of
+    its OWN uid/gid, so the killed session's `-m owner ... -j MARK --set-mark <port>` stays and keeps marking.)"""
+    if method != 'nat' or not owners_differ(first, plan):
+        return False
+    if (first.user is None and first.group is None) or (plan.user is None and plan.group is None):
+        return False
+    return want == 'u' and got.startswith('d') and _owner_ok(first, k) and not _owner_ok(plan, k)
+
+
+def stale_key(method, first, plan, k, got, want):
+    if is_ipv6_ns_mask32_class(method, plan, k, got, want):
+        return KNOWN_MASK32_KEY
+    if is_stale_owner_mark_class(method, first, plan, k, got, want):
+        return KNOWN_STALE_OWNER_KEY
+    return _classify('stale-session:' + method, plan, k, got, want)
+
+
 def stale_session_case(ctx, method, first, plan, budget):
-    """Session 1 (`first`) is set up and killed; session 2 (`plan`) is set up on what it left.  The rule state
-    must implement `plan`."""
+    """Session 1 (`first`) is set up and killed; session 2 (`plan`) is set up on what it left.  If session 2
+    starts, the whole resulting rule state (stale rules included) must implement `plan` for every owner; when the
+    two sessions differ in their owner restriction a refusal to start (Fatal) is acceptable."""
     begin_case(ctx)
     rng = ctx.rng
     ctx.hist('stale-session:' + method)
     kind, val = run_sessions(method, [first, plan])
     case0 = dict(method=method, via='stale-session', first_plan=first.to_json(), plan=plan.to_json(), packet=None)
+    if kind == 'fatal' and owners_differ(first, plan):
+        ctx.hist('stale-session-refused-to-start:' + method)
+        return
     if kind != 'ok':
         ctx.violation('C03:stale-session:%s:setup-fails' % method, case=case0,
                       expected='the second session installs its rules over what the killed session left',
@@ -1409,8 +1454,7 @@ def stale_session_case(ctx, method, first, plan, budget):
             got = 'rule rejected: %s' % e
         want = spec_verdict(method, plan, k)
         if got != want:
-            key = KNOWN_MASK32_KEY if is_ipv6_ns_mask32_class(method, plan, k, got, want) else \
-                _classify('stale-session:' + method, plan, k, got, want)
+            key = stale_key(method, first, plan, k, got, want)
             nbad[key] = nbad.get(key, 0) + 1
             if key not in bad or (bad[key][0][4] == 0 and k[4] == 1):
                 bad[key] = (k, got, want)
@@ -1428,9 +1472,7 @@ def stale_session_case(ctx, method, first, plan, budget):
             g, w = evaluate_sessions(method, f, p2, k)
             if g == w:
                 return False
-            kk = KNOWN_MASK32_KEY if is_ipv6_ns_mask32_class(method, p2, k, g, w) else \
-                _classify('stale-session:' + method, p2, k, g, w)
-            return kk == key
+            return stale_key(method, f, p2, k, g, w) == key
         f, p2 = first, plan
         changed = True
         while changed:                                   # drop entries of either session while it still fails
@@ -1858,6 +1900,11 @@ def gen_and_run(ctx):
                             [], 12300, 12300, 12299, 12299, method == 'tproxy-udp', None, None, '0x01')
             else:
                 plan = second_plan(rng, method, first)
+            if method == 'nat':
+                # (killed session's owner, new session's owner): same / none->user / user->none / A->B / groups
+                o1, o2 = STALE_OWNER_PAIRS[i % len(STALE_OWNER_PAIRS)]
+                (first.user, first.group), (plan.user, plan.group) = o1, o2
+                ctx.hist('stale-owners:%s->%s' % ('/'.join(str(x) for x in o1), '/'.join(str(x) for x in o2)))
             stale_session_case(ctx, method, first, plan, 250)
             ctx.mark(('stale', method, repr(first.to_json()), repr(plan.to_json())), True)
     # 2d. pf: a session after earlier sessions left their anchor calls in the main ruleset; the new ports are
@@ -2014,6 +2061,8 @@ def replay(ctx, rep):
                 kind, val if kind != 'ok' else 'rules installed')
         k = tuple(case['packet'])
         got, want = evaluate_sessions(method, first, plan, k)
+        if got.startswith('setup failed: fatal') and owners_differ(first, plan):
+            return False, 'the second session refuses to start on the killed session\'s state (acceptable): ' + got
         return got != want, 'packet %s (%s), second session on a killed session\'s state: rule state -> %s, ' \
             'property (second plan) -> %s' % (pkt_field(k), case.get('packet_text', ''), got, want)
     if case.get('packet') is None:
